@@ -282,6 +282,7 @@ func verdict(vs []viol, c Case) pbt.Verdict {
 	if len(vs) == 0 {
 		return pbt.OK
 	}
+	violated.Store(true)
 	sort.SliceStable(vs, func(a, b int) bool { return vs[a].finding == "" && vs[b].finding != "" })
 	var lines []string
 	for _, v := range vs {
